@@ -53,7 +53,32 @@ class Sites(ast.NodeVisitor):
         super().generic_visit(node)
 
 
+EQUIV = [False]
+
+
+def _pure(e):
+    return isinstance(e, (ast.Name, ast.Constant)) or (isinstance(e, ast.Attribute) and _pure(e.value)) or \
+        (isinstance(e, ast.Subscript) and _pure(e.value) and _pure(e.slice)) or (isinstance(e, ast.Compare) and _pure(e.left) and all(_pure(c) for c in e.comparators)) or \
+        (isinstance(e, ast.UnaryOp) and _pure(e.operand)) or (isinstance(e, ast.BinOp) and _pure(e.left) and _pure(e.right))
+
+
+def equiv_kinds(n):
+    """semantics-preserving rewrites (for the false-alarm self-test): commuted operands of + * == != and of and/or over side-effect-free
+    operands, a <= b as not (a > b) on numbers is NOT used (NaN), x[i:] untouched"""
+    if isinstance(n, ast.BinOp) and type(n.op) in (ast.Add, ast.Mult) and _pure(n.left) and _pure(n.right) and not any(isinstance(x, ast.Constant) and isinstance(x.value, str) for x in (n.left, n.right)):
+        yield "commute"
+    if isinstance(n, ast.Compare) and len(n.ops) == 1 and type(n.ops[0]) in (ast.Eq, ast.NotEq) and _pure(n.left) and _pure(n.comparators[0]):
+        yield "commute_cmp"
+    if isinstance(n, ast.Compare) and len(n.ops) == 1 and type(n.ops[0]) in (ast.Lt, ast.LtE, ast.Gt, ast.GtE) and _pure(n.left) and _pure(n.comparators[0]):
+        yield "flip_cmp"
+    if isinstance(n, ast.BoolOp) and len(n.values) == 2 and all(_pure(v) for v in n.values):
+        yield "commute_bool"
+
+
 def kinds(n):
+    if EQUIV[0]:
+        yield from equiv_kinds(n)
+        return
     if isinstance(n, ast.Compare) and len(n.ops) == 1 and type(n.ops[0]) in (ast.Lt, ast.LtE, ast.Gt, ast.GtE, ast.Eq, ast.NotEq):
         if not (isinstance(n.comparators[0], ast.Constant) and n.comparators[0].value is None):
             yield "cmp"
@@ -99,6 +124,16 @@ def apply(node, kind):
         node.args[0], node.args[1] = node.args[1], node.args[0]
     elif kind == "delete":
         return ast.Pass()
+    elif kind == "commute":
+        node.left, node.right = node.right, node.left
+    elif kind == "commute_cmp":
+        node.left, node.comparators = node.comparators[0], [node.left]
+    elif kind == "flip_cmp":
+        m = {ast.Lt: ast.Gt, ast.Gt: ast.Lt, ast.LtE: ast.GtE, ast.GtE: ast.LtE}
+        node.left, node.comparators = node.comparators[0], [node.left]
+        node.ops = [m[type(node.ops[0])]()]
+    elif kind == "commute_bool":
+        node.values = [node.values[1], node.values[0]]
     return node
 
 
@@ -168,9 +203,11 @@ def main():
     ap = argparse.ArgumentParser()
     ap.add_argument("--per", type=int, default=8); ap.add_argument("--props", default=""); ap.add_argument("--seed", type=int, default=0)
     ap.add_argument("--out", default=ROOT + "/.scratch/mutation_results.jsonl"); ap.add_argument("--workers", type=int, default=4)
+    ap.add_argument("--equiv", action="store_true", help="semantics-preserving rewrites instead of mutants: any rc=1 is a FALSE ALARM")
     ap.add_argument("--only", default="", help="comma separated file:line:kind selectors (basename of the file); every matching mutant is run")
     a = ap.parse_args()
     rnd = random.Random(a.seed)
+    EQUIV[0] = a.equiv
     A = anchors()
     want = [p for p in a.props.split(",") if p] or sorted(A)
     jobs, texts = [], {}
@@ -205,6 +242,17 @@ def main():
             results.append(r)
             fo.write(json.dumps(r) + "\n"); fo.flush()
             print("%(property)s %(file)s:%(line)s %(kind)-8s tests=%(tests_pass)s" % r, "rc=%s %s" % (r.get("rc"), r.get("how", "")), flush=True)
+    if a.equiv:
+        bad = [r for r in results if r.get("rc") == 1]
+        print("\n=== %d equivalent rewrites: %d held (rc=0), %d undecided (rc=2), %d FALSE ALARMS (rc=1), %d other" % (
+            len(results), sum(1 for r in results if r.get("rc") == 0), sum(1 for r in results if r.get("rc") == 2), len(bad),
+            sum(1 for r in results if r.get("rc") not in (0, 1, 2))))
+        for r in bad:
+            rel, new = texts[r["k"]]
+            d = list(difflib.unified_diff(baseline_text(rel).splitlines(), new.splitlines(), lineterm="", n=1))
+            print("--- FALSE ALARM %s %s:%s %s %s\n%s" % (r["property"], rel, r["line"], r["kind"], r.get("how"), "\n".join(d[2:10])))
+        shutil.rmtree("/tmp/mut" + os.environ.get("MUT_TAG", ""), ignore_errors=True)
+        return
     surv = [r for r in results if r["tests_pass"] and r.get("rc") == 0]
     print("\n=== %d mutants, %d pass the test suite, of those %d caught (rc=1), %d undecided (rc=2), %d NOT caught" % (
         len(results), sum(r["tests_pass"] for r in results), sum(1 for r in results if r.get("rc") == 1), sum(1 for r in results if r.get("rc") == 2), len(surv)))
